@@ -248,7 +248,7 @@ ADDENDA = {
     "C18": " Also: at every call in the expansion cycle and its public wrappers the callee's error is propagated (`?`, returned as is, or an Err arm that returns). Also: substitute_variables recurses only on sub-expressions of the node it was given (never on a value from the substitution map).",
     "C23": " Also: every (region, access kind) of every instruction reaches the per-region queue (element-preserving adaptors only, unconditional record call). Also: the pending write is assigned or mutably borrowed only inside the Write arm (a read never clears it).",
     "C24": " Also: the per-frame queues are keyed by a type holding the full FrameIdentifier (no order-forgetting set of qubits).",
-    "C25": " Also: TimeSpan::union decided path by path (start = min of starts, end = max of ends, justified by the path's comparisons); the calibrated index map and span merge of BasicBlock::as_schedule. Also: the set of scheduled instruction kinds is read from the MIR of DefaultHandler::is_scheduled whatever its shape, and compared kind by kind with the duration table.",
+    "C25": " Also: TimeSpan::union decided path by path (start = min of starts, end = max of ends, justified by the path's comparisons); the calibrated index map and span merge of BasicBlock::as_schedule. Also: the set of scheduled instruction kinds is read from the MIR of DefaultHandler::is_scheduled whatever its shape, and compared kind by kind with the duration table. Also: the start time is the maximum (fold from zero keeping the larger value) of the timed predecessors' end times; Schedule::duration is raised to an item's end time exactly when that end time is later.",
     "C26": " Also: each side of FrameSet::filter is evaluated whenever its condition is present (no Some-discarding adaptor, unconditional evaluation). Also: And / Or evaluate every operand (no take_while / skip / find ... between the operand results and the combination).",
     "C27": " Also: the CALL table: for (return slot | loop) x (MemoryReference | Identifier) x (reads | writes) the insertion happens under exactly the expected controlling conditions (writes of loop arguments only additionally under `mutable`). Also: a helper reports a region that is certainly present (a &MemoryReference parameter) the same way on every path; memory references are listed from the expression as written (no simplification or substitution first).",
     "C30": " Also: every declaration lookup in the type checker (18 sites) reports UndefinedMemoryReference when the region is not declared; a number literal is rejected exactly when |imaginary part| is non-zero (sign-symmetric test, error on the non-zero side).",
